@@ -715,6 +715,12 @@ fn circular_arc_properties(a: Pos, b: Pos, c: Pos) -> Option<CircularArcProperti
         y: (a_sq * (c - b).x + b_sq * (a - c).x + c_sq * (b - a).x) / d,
     };
 
+    // * For almost collinear points with large coordinates the denominator can
+    // * cancel out entirely in which case there is no usable circle either.
+    if !(centre.x.is_finite() && centre.y.is_finite()) {
+        return None;
+    }
+
     let d_a = a - centre;
     let d_c = c - centre;
 
